@@ -275,3 +275,53 @@ CLAIMS = {
         "technique": "model-based property testing (Hypothesis) against an independent reference interpreter + metamorphic layout independence",
     },
 }
+
+# What was added to each check after the first registration (appended to the level note by mkmanifest).
+EXTRA = {
+    "C01": "Model-free families: order laws (converse, asymmetry, strictness, antisymmetry, transitivity) over all pairs and "
+           "triples of a 23-value scalar pool; every block tag nested in every block tag (markup and liquid-tag form); "
+           "cycle-iterator identity over pairs of item lists; every modelled filter with each argument replaced by a value "
+           "of every type.",
+    "C02": "Also: template names (hostile strings, huge ints, any JSON value) handed to file-system / package / choice "
+           "loaders from data, literals and get_template; programs rendered under generous resource limits (limited "
+           "buffers and counters in use); index literals beyond the int-to-str limit.",
+    "C03": "Differential cases also draw a resource limit and an undefined policy (default / strict / falsy-strict); an "
+           "enumerated family puts loop_iteration_limit at product-1 / product / product+1 for every pairing of loop "
+           "constructs across render / include / call / capture, and depth and output limits along partial chains.",
+    "C04": "A third of the cases render through render_async.",
+    "C05": "Context objects include named-tuple records; templates also try to pass `context:` / `environment:` keyword "
+           "arguments to filters.",
+    "C07": "Callers also sit in the overriding block of an extends chain whose base binds names around the block tag; "
+           "callees loop and read forloop.parentloop; include is also tried inside (overriding) blocks of a rendered "
+           "template.",
+    "C08": "Error cases and a fifth of the others also run through file-system loaders with a default extension; on one "
+           "caching environment the other templates of a case are rendered as pages of their own after the entry (cached "
+           "history); generated chains wrap block tags in for loops and captures, print the loop variable in block bodies, "
+           "include plain partials that define blocks and put text in front of `extends` (known finding).",
+    "C09": "Histories also edit the (non-caching) loader's contents; fixed probes and the history's own templates are "
+           "rendered on brand-new objects before and after every history to expose class- or module-level state; partial "
+           "dates run under a faked dateutil clock.",
+    "C10": "The table is repeated with each layer in turn binding nil and with a lambda filter whose parameter has the "
+           "looked-up name running before the lookup.",
+    "C11": "Generated chains mark overridden blocks `required`; the names a render/include tag binds are modelled per tag "
+           "(alias or template stem).",
+    "C12": "Generated programs use indirect and integer roots, keyword-named variables (`empty`, `for`, `continue`, `a b`), "
+           "out-of-range float literals and empty else branches; an enumerated grid covers empty / blank branches under "
+           "every combination of adjacent markers.",
+    "C13": "Traversal walks are repeated with unicode look-alikes of `..` and `/`; neighbour histories ask another loader "
+           "object over other directories for the same name first; a non-Liquid exception for an absolute / `..` name is a "
+           "wrong-error violation.",
+    "C14": "File modification times move forwards or backwards; callers' globals are ==-equal but render differently; a "
+           "separate enumerated family (histories of writes / deletes / loads over two search paths) is compared directly "
+           "with an uncached loader.",
+    "C15": "nil counts on the translate tag; positional arguments of t / ngettext / pgettext / npgettext after keyword "
+           "arguments.",
+    "C16": "UndefinedError for a name no template mentions (optional settings looked up by filters) and for an operand "
+           "that is never evaluated (short-circuit, branch not taken) is a violation; every filter is also probed with "
+           "complete data.",
+    "C17": "A quarter of the generated programs use shorthand indexes (`a.0`) under shorthand_indexes=True; error token "
+           "spans must lie inside the source.",
+    "C18": "Trimming environments render first; the verbatim clause is re-checked after them.",
+    "C19": "String-parameter law: for every parameter documented as <string>, f(x, v) == f(x, text(v)) for nil, booleans, "
+           "numbers and arrays; booleans and 1.0/0.0 among sort_numeric inputs.",
+}
